@@ -481,3 +481,66 @@ def r_null_ends_list(cx):
                   "loaded (and a missing one is an error), contrary to the documented `ignore any additional grids`" % fn,
                   cx.where(t["span"]))
     cx.count("R-NULL-ENDS-LIST", "null_records", n)
+
+
+@rule("R-GRID-MISS-IS-NAN", ["C10", "C08"])
+def r_grid_miss_is_nan(cx):
+    """A point for which `grids_at` finds no grid (outside coverage, no null grid) cannot be transformed: the tuple is
+    overwritten with NaN and not counted. In the grid operators no result of `grids_at` is given a default
+    (`unwrap_or(..)`, `unwrap_or_default()`, `unwrap_or_else(..)`) - that would hand back a partly computed tuple that
+    looks valid."""
+    n = 0
+    bad_total = 0
+    for name in sorted(cx.f.lib["fns"]):
+        if not name.startswith(("inner_op::gridshift::", "inner_op::deformation::", "inner_op::deflection::")) or "::tests" in name:
+            continue
+        f = cx.f.fn(name)
+        sites = [bb for bb, t in f.calls() if (f.callee(t) or "").endswith("grid::grids_at")]
+        if not sites:
+            continue
+        n += len(sites)
+        bad = []
+        for bb, t in f.calls():
+            tail = (f.callee(t) or "").rsplit("::", 1)[-1]
+            if tail not in ("unwrap_or", "unwrap_or_default", "unwrap_or_else", "map_or", "map_or_else", "or", "or_else"):
+                continue
+            a = f.arg_terms(bb)
+            src = mir.strip_refs(a[0]) if a else ("unknown",)
+            if src[0] == "call" and isinstance(src[1], str) and src[1].endswith("grid::grids_at"):
+                bad.append((tail, t["span"]))
+        bad_total += len(bad)
+        cx.ob("R-GRID-MISS-IS-NAN", name, not bad,
+              "%s: no grid look-up is given a default" % name if not bad else
+              "%s gives a failed grid look-up a default value (%s) instead of writing NaN: a tuple at the rim of the coverage "
+              "comes back partly computed and is counted as a success" % (name, bad[0][0]),
+              cx.where(bad[0][1]) if bad else cx.where(f.d["span"]))
+    cx.count("R-GRID-MISS-IS-NAN", "lookups", n)
+
+
+@rule("R-MARGIN-PASSED", ["C08"])
+def r_margin_passed(cx):
+    """`Grid::at(coord, margin)`: the margin the caller asks for governs both steps of an NTv2 look-up - finding the
+    sub-grid and interpolating in it. In `<Ntv2Grid as Grid>::at` (and the closure it hands to `and_then`) every call
+    that takes a margin receives the caller's margin, not a constant."""
+    base = "<grid::ntv2::Ntv2Grid as grid::Grid>::at"
+    n = 0
+    for name in sorted(cx.f.lib["fns"]):
+        if not (name == base or name.startswith(base + "::{closure")):
+            continue
+        f = cx.f.fn(name)
+        for bb, t in f.calls():
+            c = (f.callee(t) or "") + " " + (t.get("callee") or "")
+            if not (c.split()[0].endswith("::at") or "find_grid" in c or "Grid::at" in c):
+                continue
+            a = f.arg_terms(bb)
+            if len(a) < 3:
+                continue
+            n += 1
+            m = mir.strip_refs(a[2])
+            is_const = m[0] == "const"
+            cx.ob("R-MARGIN-PASSED", "%s/call%d" % (name.rsplit("::", 1)[-1] if "{closure" in name else "at", n - 1), not is_const,
+                  "the caller's margin is passed on" if not is_const else
+                  "Ntv2Grid::at passes the constant margin %s on instead of the margin it was called with: a point within the "
+                  "half-cell margin of the root grid is found but not interpolated, and gridshift stomps it" % (m[2],),
+                  cx.where(t["span"]))
+    cx.count("R-MARGIN-PASSED", "margin_calls", n)
